@@ -17,6 +17,8 @@ def _expected(kind, cid):
         return "Eval vm_compute in (map expected_trigger (filter (fun t => N.eqb (tid t) %d) tcases))." % cid
     if kind == 6:
         return "Eval vm_compute in documented_statuses."
+    if kind in (7, 8):
+        return "Eval vm_compute in (map expected_fixed (filter (fun c => N.eqb (fid c) %d) fcases))." % cid
     return ""
 
 
@@ -31,6 +33,8 @@ PROP = dict(
         3: ("exit-shape-mismatch", "translator obligation: cli.Exit's mapping in lib/cli/app.go (default code, nil -> no exit, ForcedExit 0 -> no exit, query.Error -> Code(), cli.Exit(message, code)), the panic capture in Processor.execute, the ReturnCode constants or the set of never-built error types differ from the model", False),
         4: ("exit-code-mismatch", "a program ending in a known error class: error number / Code() observed through the library or the exit status of build/csvq differ from process_status of the model", True),
         5: ("nil-error-dereference-site", "translator obligation: a selector on an `error` variable that is provably nil at that point (the pattern of F-C19-1: `if e != nil { … err.Error() … }` with a never-assigned err)", False),
+        7: ("fixed-load-mismatch", "fixed-length loader: SELECT * FROM FIXED('[...]', file, 'UTF8', no_header, without_null) of build/csvq disagrees with Model/Fixed.v fixed_load (header names, cells incl. NULL vs empty, or error vs table)", True),
+        8: ("fixed-not-rectangular", "fixed-length loader: the table printed by build/csvq has a record whose field count differs from the header's (fixed_load_rectangular fails on the implementation's own output)", True),
         6: ("undocumented-status", "a run ended with an exit status outside 0,1,2,4,8,16,32,64 although the program contains no EXIT / TRIGGER ERROR code and no signal was sent (Model/ExitCode.v status_documented)", True),
     },
     expected=_expected,
